@@ -21,7 +21,7 @@ QUICK = ck.tier == "quick"
 T0 = time.time()
 
 SUPPORT = ["MirVerif.Model.PPExpr", "MirVerif.Model.PPMacro", "MirVerif.Model.PPMacroUnit",
-           "MirVerif.Lemmas.PPExpr", "MirVerif.Lemmas.PPMacro"]
+           "MirVerif.Lemmas.PPExpr", "MirVerif.Lemmas.PPMacro", "MirVerif.Lemmas.PPMacroFuel"]
 proof_ok = ck.proof_gate(["MirVerif.Props.C09"], support_modules=SUPPORT, exes=["mirdrv_c09"])
 
 # ------------------------------------------------------------------ builds from the current tree
@@ -769,6 +769,82 @@ ck.stage("if-grid", n=len(toks_list), exhaustive_pairs=n_grid, t=round(time.time
 for t in toks_list[n_grid:n_grid + 3]:
     ck.sample({"family": "if-grid", "source": "#if " + " ".join(t)})
 
+# ------------------------------------------------------------------ stringify / destringify of the code
+def strings_family():
+    alpha = ["a", "\\", '"', "n", " ", "0"]
+    strs = [""]
+    if QUICK:
+        for L in range(1, 5):          # exhaustive over {a, \, ", n} up to length 4
+            idx = [0] * L
+            while True:
+                strs.append("".join(alpha[:4][i] for i in idx))
+                k = L - 1
+                while k >= 0 and idx[k] == 3:
+                    idx[k] = 0; k -= 1
+                if k < 0:
+                    break
+                idx[k] += 1
+        for _ in range(600):
+            strs.append("".join(ck.rng.choice(alpha) for _ in range(ck.rng.below(12))))
+    else:
+        for L in range(1, 7):
+            idx = [0] * L
+            while True:
+                strs.append("".join(alpha[:4][i] for i in idx))
+                k = L - 1
+                while k >= 0 and idx[k] == 3:
+                    idx[k] = 0; k -= 1
+                if k < 0:
+                    break
+                idx[k] += 1
+        for _ in range(5000):
+            strs.append("".join(ck.rng.choice(alpha) for _ in range(ck.rng.below(16))))
+    d = os.path.join(CACHE, "c09-tmp")
+    os.makedirs(d, exist_ok=True)
+    path = os.path.join(d, f"strings{os.getpid()}.txt")
+    with open(path, "w") as f:
+        f.write("".join(G.hx(x) + "\n" for x in strs))
+    p = subprocess.run([HARNESS, "--strings", path], capture_output=True, text=True)
+    os.remove(path)
+    rc, out, err = ck.drv("mirdrv_c09", ["strings"], "".join(G.hx(x) + "\n" for x in strs))
+    hl = p.stdout.strip("\n").split("\n")
+    ml = out.strip("\n").split("\n")
+    st = {"strings": len(strs), "model_ne_code": 0, "roundtrip_fails": 0, "with_escape_pair": 0}
+    if len(hl) != 3 * len(strs) or len(ml) != 4 * len(strs):
+        ck.broken_ties.append({"kind": "correspondence", "name": "stringify/destringify harness protocol",
+                               "first_diff": (p.stdout[:200], out[:200], p.stderr[-200:])})
+        return st
+    reported = False
+    for i, x in enumerate(strs):
+        hS, hD, hR = hl[3 * i:3 * i + 3]
+        mS, mD, mR, mF = ml[4 * i:4 * i + 4]
+        if (hS, hD, hR) != (mS, mD, mR):
+            st["model_ne_code"] += 1
+            if st["model_ne_code"] == 1:
+                ck.broken_ties.append({"kind": "correspondence", "name": "stringify/destringifyC (literal model) vs c2mir.c",
+                                       "first_diff": {"s": x, "code": (hS, hD, hR), "model": (mS, mD, mR)}})
+            continue
+        want = "D " + G.hx(x)
+        if hD != want:
+            st["roundtrip_fails"] += 1
+            fixed_ok = mF == "F " + G.hx(x)
+            sig = "C09:destringify-escape-pairs" if fixed_ok else None
+            if sig and reported:
+                continue
+            reported = reported or bool(sig)
+            ck.violation({"stage": "tie", "theorem_or_correspondence": "stringify_roundtrip",
+                          "input": {"kind": "string", "s": x},
+                          "model_output": {"stringify": mS, "destringify(stringify)": mD},
+                          "impl_output": {"stringify": hS, "destringify(stringify)": hD},
+                          "spec_verdict": "destringify (stringify s) != s on the real static functions",
+                          "how_to_rerun": "cd /verif && ./check C09 --tier quick"},
+                         what="destringify does not invert stringify", signature=sig)
+    return st
+
+
+str_stats = strings_family()
+ck.stage("stringify-destringify", **str_stats)
+
 # ------------------------------------------------------------------ the c2m binary prints what the harness reports
 if C2M is not None:
     nb = 0
@@ -791,7 +867,7 @@ if C2M is not None:
     ck.stage("c2m-binary-crosscheck", n=nb, bad=bad)
 
 # ------------------------------------------------------------------ evidence
-ck.cov["evaluations"] = stats["cases"] + ifstats["exprs"]
+ck.cov["evaluations"] = stats["cases"] + ifstats["exprs"] + str_stats["strings"]
 ck.cov["distinct_nontrivial"] = sum(f["nontrivial"] for f in fam_stats.values()) + ifstats["defined_value"]
 ck.cov["rule"] = ("token cases: random macro-definition sets + invocation texts (object-/function-like, variadic, "
                   "#/## with role-typed parameters so that pastes are valid, self and mutual recursion, function-like "
@@ -803,6 +879,7 @@ ck.cov["rule"] = ("token cases: random macro-definition sets + invocation texts 
                   "the boundary grid; counted when C11 gives the expression a value")
 ck.cov["distribution"] = {"token_cases": stats, "families": fam_stats, "generator_features": gen_stats,
                           "if_grid": {k: v for k, v in ifstats.items()},
+                          "stringify_destringify": str_stats,
                           "findings_seen": sig_examples}
 ck.cov["exhaustive"] = False
 ck.assumptions += [
